@@ -1293,8 +1293,14 @@ impl Drop for ReservedSession<'_> {
     fn drop(&mut self) {
         self.matter.with_state(|state| {
             if self.complete {
-                let session = unwrap!(state.sessions.get(self.id));
-                session.reserved = false;
+                // The slot may be gone by now: `remove_pase` / `remove_for_fabric` do not
+                // spare reserved slots, and both can run while the handshake handler is
+                // still waiting for the acknowledgement of its final status report (or,
+                // with CASE resumption, for SigmaFinished) with the slot already updated
+                // to its final mode. There is nothing left to release in that case.
+                if let Some(session) = state.sessions.get(self.id) {
+                    session.reserved = false;
+                }
             } else {
                 state.sessions.remove(self.id);
             }
